@@ -47,3 +47,102 @@ pub(crate) fn stub_from_dht_response(info_hash: &Id, key: &[u8], timestamp: u64,
 pub(crate) fn stub_system_time() -> u64 {
     unsafe { NOW_US }
 }
+
+// ---------------------------------------------------------------------------------------------
+// Obligation: the REAL SignedAnnounce::from_dht_request / from_dht_response satisfy that contract.
+// Dependency boundary: VerifyingKey::from_bytes, <VerifyingKey as Verifier>::verify (ed25519),
+// SystemTime::now (through the private `system_time()`).
+// ---------------------------------------------------------------------------------------------
+mod spec {
+    include!("/verif/spec/server.rs");
+}
+
+static mut KEY_IS_POINT: bool = true;
+static mut VERIFY_CALLS: u32 = 0;
+static mut VERIFY_KEY0: u8 = 0;
+static mut VERIFY_SIG0: u8 = 0;
+static mut VERIFY_MSG_OK: bool = false;
+static mut EXPECT_HASH: [u8; 20] = [0; 20];
+static mut EXPECT_T: u64 = 0;
+
+fn stub_vk_from_bytes(bytes: &[u8; 32]) -> Result<VerifyingKey, ed25519_dalek::SignatureError> {
+    if unsafe { KEY_IS_POINT } {
+        let vk = VerifyingKey::default();
+        let p = vk.as_bytes().as_ptr() as usize as *mut u8;
+        unsafe { core::ptr::copy_nonoverlapping(bytes.as_ptr(), p, 32) };
+        Ok(vk)
+    } else {
+        Err(ed25519_dalek::SignatureError::new())
+    }
+}
+
+fn stub_verify(k: &VerifyingKey, message: &[u8], signature: &Signature) -> Result<(), ed25519_dalek::SignatureError> {
+    unsafe {
+        VERIFY_CALLS += 1;
+        VERIFY_KEY0 = k.as_bytes()[0];
+        VERIFY_SIG0 = signature.to_bytes()[0];
+        // the signed message must be info_hash || big-endian timestamp (28 bytes)
+        VERIFY_MSG_OK = message.len() == 28 && message[..20] == EXPECT_HASH && message[20..] == EXPECT_T.to_be_bytes();
+        if ANN_SIG_OK { Ok(()) } else { Err(ed25519_dalek::SignatureError::new()) }
+    }
+}
+
+fn real_from_dht_message_case(request: bool) {
+    let key_len: usize = kani::any();
+    kani::assume(key_len == 31 || key_len == 32 || key_len == 33);
+    let sig_len: usize = kani::any();
+    kani::assume(sig_len == 63 || sig_len == 64 || sig_len == 65);
+    let kbuf: [u8; 33] = kani::any();
+    let sbuf: [u8; 65] = kani::any();
+    let hash: [u8; 20] = kani::any();
+    let t: u64 = kani::any();
+    let now: u64 = kani::any();
+    let point: bool = kani::any();
+    let sig_ok: bool = kani::any();
+    unsafe {
+        KEY_IS_POINT = point;
+        ANN_SIG_OK = sig_ok;
+        NOW_US = now;
+        EXPECT_HASH = hash;
+        EXPECT_T = t;
+    }
+    let id = Id::from(hash);
+    let r = if request {
+        SignedAnnounce::from_dht_request(&id, &kbuf[..key_len], t, &sbuf[..sig_len])
+    } else {
+        SignedAnnounce::from_dht_response(&id, &kbuf[..key_len], t, &sbuf[..sig_len])
+    };
+    let fresh = spec::timestamp_ok(now, t);
+    let want = key_len == 32 && point && sig_len == 64 && sig_ok && (!request || fresh);
+    assert!(r.is_ok() == want, "C03/C02: a signed announcement is accepted <=> key and signature well-formed, signature verifies, and (requests only) |now - t| <= 45 s");
+    if let Ok(a) = &r {
+        assert!(unsafe { VERIFY_CALLS } == 1 && unsafe { VERIFY_MSG_OK } && unsafe { VERIFY_KEY0 } == kbuf[0] && unsafe { VERIFY_SIG0 } == sbuf[0],
+            "the signature was verified under the given key over info_hash || timestamp");
+        assert!(a.key[..] == kbuf[..32] && a.timestamp == t && a.signature[..] == sbuf[..64], "the announcement carries the arguments unchanged");
+    }
+    kani::cover!(r.is_ok());
+    if request {
+        kani::cover!(!r.is_ok() && key_len == 32 && point && sig_len == 64 && sig_ok, "refused only because of the timestamp");
+        kani::cover!(r.is_ok() && now == t.wrapping_add(45_000_000), "exactly 45 s old accepted");
+        kani::cover!(r.is_ok() && t == now.wrapping_add(45_000_000), "exactly 45 s ahead accepted");
+    }
+    core::mem::forget(r);
+}
+
+#[kani::proof]
+#[kani::unwind(70)]
+#[kani::stub(ed25519_dalek::VerifyingKey::from_bytes, stub_vk_from_bytes)]
+#[kani::stub(<ed25519_dalek::VerifyingKey as ed25519_dalek::Verifier<ed25519_dalek::Signature>>::verify, stub_verify)]
+#[kani::stub(system_time, stub_system_time)]
+fn c03_signed_announce_request_ok_iff_signature_and_timestamp_within_45s() {
+    real_from_dht_message_case(true)
+}
+
+#[kani::proof]
+#[kani::unwind(70)]
+#[kani::stub(ed25519_dalek::VerifyingKey::from_bytes, stub_vk_from_bytes)]
+#[kani::stub(<ed25519_dalek::VerifyingKey as ed25519_dalek::Verifier<ed25519_dalek::Signature>>::verify, stub_verify)]
+#[kani::stub(system_time, stub_system_time)]
+fn c02_signed_announce_response_ok_iff_signature_verifies() {
+    real_from_dht_message_case(false)
+}
